@@ -1618,7 +1618,7 @@ def replay(ctx, case):
         item = {k: v for k, v in case.items() if k != "family"}
         rec, fails = run_order_case(item, seed=ctx.seed)
         print("  base:", json.dumps(ORDER_BASES[case["base"]], sort_keys=True))
-        for k in ("item", "pred_rel", "zero", "ratio"):
+        for k in ("item", "scale", "sensitivity", "propagator_err_over_tol", "pred_rel", "zero", "ratio"):
             if k in rec:
                 print(f"  {k}: {rec[k]}")
         for cls, msg in fails:
